@@ -245,6 +245,8 @@ def configs(tier):
                 continue  # DPD with a massless particle: the zeta angles are C19's subject (massless1 configs)
             if al == "axis-angle" and r.startswith("J/psi") and "massless" not in r:
                 continue  # three Euler angles per spinning outer state and a spin-1 parent: z3 does not finish in minutes (outside the bound)
+            if al == "axis-angle" and "Lambda(1520)" in r:
+                continue  # spin-3/2 isobar: z3 decides it (unsat, ~350 s) but needs > 32 GB resident; an OOM-killed worker is no verdict (outside the bound)
             out.append({"name": f"{r}|{al}", "kind": "align", "reaction": r, "alignment": al, "config_timeout": 900})
     return out
 
@@ -262,7 +264,7 @@ def main():
         assumptions=["float()/Decimal() are exact on half-integers (the stated input domain of create_spin_range)",
                      "amplitude symbols are free complex variables; every helicity, Wigner and zeta angle is free (no kinematics needed: unitarity)",
                      "that the angle DEFINITIONS are the right functions of the event is C19/C07"],  # fmt: skip
-        outside=["axis-angle alignment with a spin-1 parent (undecided within minutes)", "massless final states in the aligned == unaligned identity (with a spin-0 parent the helicity sets are incomplete, with a spin-1 parent the axis-angle identity is undecided)", "multi-topology reactions (C04)", "spins > 3/2"],
+        outside=["axis-angle alignment with a spin-1 parent (undecided within minutes)", "axis-angle alignment of Lambda_c -> p K- pi+ via Lambda(1520) (spin 3/2): decided unsat in ~350 s when run alone, but z3 needs > 32 GB resident, so it is not part of the registered tiers", "massless final states in the aligned == unaligned identity (with a spin-0 parent the helicity sets are incomplete, with a spin-1 parent the axis-angle identity is undecided)", "multi-topology reactions (C04)", "spins > 3/2"],
     )
 
 
